@@ -49,6 +49,24 @@ func (s *State) keyTerm(v Value) *Term {
 		return x
 	case *PtrV:
 		return s.ptrID(x)
+	case *StructV:
+		// struct keys: concatenation of the field keys (injective)
+		var k *Term
+		for _, f := range x.Fields {
+			ft := s.keyTerm(f)
+			if ft.Sort.Kind == KBool {
+				ft = Ite(ft, Const(1, 1), Const(1, 0))
+			}
+			if k == nil {
+				k = ft
+			} else {
+				k = Concat(k, ft)
+			}
+		}
+		if k == nil {
+			k = Const(1, 0)
+		}
+		return k
 	}
 	unsup("map key of %T", v)
 	return nil
@@ -100,6 +118,9 @@ func (s *State) mapBaseValue(mc *MapContents, k *Term) Value {
 	}
 	if st, ok := mc.ElemT.Underlying().(*types.Struct); ok && st.NumFields() == 0 {
 		return s.zeroValue(mc.ElemT)
+	}
+	if isOpaqueStruct(mc.ElemT) == "time.Time" {
+		return &OpaqueV{Kind: "time.Time", T: App("mapval_"+mc.Base, USort("Time"), k)}
 	}
 	return s.symValueAt(mc.ElemT, "mapval_"+mc.Base, k)
 }
